@@ -3,7 +3,7 @@
 From Coq Require Import List Arith NArith Bool Lia Sorting.Sorted.
 Import ListNotations.
 Require Import MayV.Rt.TimerThread.
-Open Scope N_scope.
+Local Open Scope N_scope.
 
 Notation stepF := (step false).
 Notation ReachF := (Reach false).
